@@ -64,8 +64,16 @@ type Case struct {
 const sparseAbove = 100000
 
 func content(p string, n int64) []byte {
-	if n <= 0 || n > sparseAbove {
+	if n > sparseAbove {
 		return nil // metadata-only entry (never opened)
+	}
+	return bulk(p, n)
+}
+
+// bulk is content without the sparse rule (upload bodies are always real).
+func bulk(p string, n int64) []byte {
+	if n <= 0 {
+		return nil
 	}
 	unit := []byte(fmt.Sprintf("[%x]", vev.Hash(p)))
 	b := bytes.Repeat(unit, int(n)/len(unit)+1)
@@ -245,7 +253,7 @@ func evaluate(c Case) (o vev.Outcome, err error) {
 				return dev("open|content", "Open(%q): client read %d bytes (%.40q), backend holds %d (%.40q)", name, len(got), got, len(want), want), nil
 			}
 		case "create":
-			data := content("create:"+name, int64(op.Size))
+			data := bulk("create:"+name, int64(op.Size))
 			w, err := cl.Create(ctx, name)
 			if err != nil {
 				return dev("create|error", "Create(%q): %v", name, err), nil
